@@ -46,23 +46,24 @@ Theorem C10_Databricks_formfeed_refuted :
     lex_dbx (emit_of kind_Databricks s ++ rest) = Some ([102], rest).
 Proof. exact Databricks_formfeed_refuted. Qed.
 
-(* weaker than the property: strings containing a backslash are excluded (see the _refuted below) *)
-Theorem C10_roundtrip_ClickHouse_partial : forall s rest, ~ In 92 s -> no_quote_start 39 rest ->
+Theorem C10_roundtrip_ClickHouse : forall s rest, no_quote_start 39 rest ->
   lex_ch (emit_of kind_ClickHouse s ++ rest) = Some (s, rest).
-Proof. exact roundtrip_ClickHouse_partial. Qed.
+Proof. exact roundtrip_ClickHouse. Qed.
 
-Theorem C10_ClickHouse_backslash_refuted :
+(* for the record: quote doubling alone (the ClickHouse emitter before the fix: commit in /repo) does not
+   round trip with ClickHouse's lexer and lets a literal end inside the following SQL *)
+Theorem C10_ClickHouse_quote_doubling_alone_refuted :
   exists s rest, no_quote_start 39 rest /\
-    lex_ch (emit_of kind_ClickHouse s ++ rest) <> Some (s, rest).
-Proof. exact ClickHouse_backslash_refuted. Qed.
+    lex_ch (emit_of quote_doubling s ++ rest) <> Some (s, rest).
+Proof. exact ClickHouse_quote_doubling_alone_refuted. Qed.
 
-Theorem C10_ClickHouse_backslash_changes_structure :
+Theorem C10_ClickHouse_quote_doubling_alone_changes_structure :
   let s := [97; 92] in
   let rest := [32; 79; 82; 32; 39; 120; 39; 32; 61; 32; 39; 120; 39] in
   no_quote_start 39 rest /\
-  lex_ch (emit_of kind_ClickHouse s ++ rest) =
+  lex_ch (emit_of quote_doubling s ++ rest) =
     Some ([97; 39; 32; 79; 82; 32], [120; 39; 32; 61; 32; 39; 120; 39]).
-Proof. exact ClickHouse_backslash_changes_structure. Qed.
+Proof. exact ClickHouse_quote_doubling_alone_changes_structure. Qed.
 
 (* ---- the proposed repairs of the two emitters round trip for ALL strings (same Spec lexers) ----
    ClickHouse:  "'%s'" % s.replace('\\', '\\\\').replace("'", "''")
